@@ -251,7 +251,7 @@ func runC14(c c14Case) (*Violation, string) {
 				return violf("message-torn-by-close", "the client's closer was invoked while the client was writing a %d-byte reverse-call response (a multi-fragment message, link paused for 40 ms): the message was not completed before the connection was given up; the server-side caller observed %v", c.CloseMid, notes), ""
 			}
 		case <-p.Done:
-		case <-time.After(3 * time.Second):
+		case <-time.After(15 * time.Second): // marshalling megabytes under the race detector on a busy machine takes a while
 		}
 		rig.Proxy.Unstall()
 	}
